@@ -27,73 +27,47 @@ def _resolve_anchors(P):
         LOOKUPS = ['GC_Mem_Ptr'] + [x for x in LOOKUPS if x in ('GC_Rem_Ptr', 'GC_Mark_Item')]
 
 
+def report_registry(P, ctx, rule, ops, texts=None):
+    """obligations from the registry evaluation (gcmodel): one per operation in ops"""
+    from . import gcmodel
+    res = gcmodel.eval_registry(P)
+    ctx.stats['paths'] += res['n']
+    fnames = {'set': 'GC_Set_Ptr', 'mem': 'GC_Mem_Ptr' if P.fn('GC_Mem_Ptr', required=False) else P.slot('GC', 'Get', 'mem'), 'rem': 'GC_Rem_Ptr', 'mark': 'GC_Mark_Item'}
+    default = {'set': 'registering a pointer leaves exactly the registered pointers in the table, each once with its own root flag and mark, its hash stored as home slot + 1, '
+                      'and every one of them where a lookup from its home slot finds it (pointers whose home slots collide and wrap past the end included)',
+               'mem': 'a lookup answers true exactly for the registered pointers, whatever was inserted or removed before, and changes nothing; a registry without slots holds nothing',
+               'rem': 'removing a registered pointer strikes exactly its entry, moves the displaced entries behind it back so that every other pointer is still found, decrements the '
+                      'count once and finalises the pointer once; a pointer that is not registered leaves the registry as it is',
+               'mark': 'marking an unmarked registered pointer sets its mark and traces it once; a marked or an unregistered pointer changes and traces nothing'}
+    for op in ops:
+        fn = P.fn(fnames[op], required=False) or P.fn(P.slot('GC', 'Get', 'mem'))
+        ctx.fn(fn)
+        bad, unsup = res['bad'].get(op), res['unsup'].get(op)
+        text = (texts or {}).get(op, default[op])
+        if unsup and not bad:
+            ctx.undecided(rule, fnames[op], site(fn), 'leaves the evaluated fragment: ' + unsup)
+        else:
+            ctx.check(bad is None, rule, fnames[op], site(fn), text + ' (evaluated on 5-slot registries, %d steps)' % res['n'], [bad] if bad else None)
+
+
 def check_probe_agreement(P, ctx, rule='C17.probe-agreement'):
-    _resolve_anchors(P)
-    fr = {}
-    for f in LOOKUPS + [INSERT]:
-        fr[f] = probe.lookup_fragments(P, f)
-        ctx.fn(fr[f].fn)
-    best, refname = majority({f: (frozenset(probe.stop_set(fr[f])), ir.fmt(fr[f].start['i'])) for f in LOOKUPS})
-    ref = fr[refname]
-    for f in LOOKUPS + [INSERT]:
-        F = fr[f]
-        s = site(F.fn)
-        same_start = {k: ir.fmt(v) for k, v in F.start.items()} == {k: ir.fmt(v) for k, v in ref.start.items()}
-        ctx.check(same_start, rule, f + ':start', s, 'the probe starts at the same home slot and distance 0 as in %s (%s)' % (refname, {k: ir.fmt(v) for k, v in ref.start.items()}),
-                  ['here: %s' % {k: ir.fmt(v) for k, v in F.start.items()}])
-        adv = {a for a in probe.advance_set(F) if not (a[0] == 'j' and a[1] == '=')}
-        radv = {a for a in probe.advance_set(ref) if not (a[0] == 'j' and a[1] == '=')}
-        ctx.check(adv == radv, rule, f + ':advance', s, 'each step advances to the next slot modulo the table size and increments the distance, as in %s' % refname,
-                  ['here: %s' % sorted(adv, key=str), '%s: %s' % (refname, sorted(radv, key=str))])
-        if f in LOOKUPS:
-            ctx.check(probe.stop_set(F) == probe.stop_set(ref), rule, f + ':stop', s,
-                      'a lookup gives up exactly at an empty slot or when its distance exceeds the resident\'s probe distance, as in %s' % refname,
-                      ['here: %s' % sorted(probe.stop_set(F)), '%s: %s' % (refname, sorted(probe.stop_set(ref)))])
-            hits = [ir.fmt(c) for n, c in F.conds if ir.fmt(c) in ('(arg0->entries[I].ptr == arg1)', '(arg0->entries[I].ptr != arg1)')]
-            ctx.check(len(hits) == 1, rule, f + ':hit', s, 'the hit test compares the resident pointer of the probed slot with the sought pointer')
-    # insertion specifics
-    F = fr[INSERT]
-    g = F.g
-    s = site(F.fn)
-    # stored hash is home slot + 1 (0 marks an empty slot), computed from the starting index
-    ent = [d for st in ir.stmts(F.fn['body']) if st['k'] == 'decl' for d in st['decls'] if d['type'] == 'struct GCEntry' and d['init'] is not None and d['init'][0] == 'initlist']
-    ok = len(ent) == 1
-    if ok:
-        fields = [f_[0] for f_ in P.records['GCEntry']['fields']]
-        m = dict(zip(fields, ent[0]['init'][1]))
-        hv = ir.top_nocast(m['hash'])
-        defs = util.single_defs(F.fn)
-        hexp = defs[hv[2]] if (hv[0] == 'local' and hv[2] in defs) else m['hash']
-        ok = ir.fmt(F.rc(hexp)) in ('(1 + I)',)
-        # and that definition is evaluated before the loop, right after the start assignment
-    ctx.check(ok, rule, INSERT + ':stored-hash', s, 'a new entry stores home slot + 1 as its hash (0 means empty), taken from the starting index before probing')
-    disp = [(n, c) for n, c in F.conds if ir.fmt(c) in ('(P <= J)', '(P < J)')]
-    ok = len(disp) == 1
-    if ok:
-        jp = [w for w in F.writes if w[1] == 'j' and w[2] == '=' and ir.fmt(w[3]) == 'P']
-        ok = len(jp) == 1 and g.must_pass(jp[0][0]['id'], through_edges=[(disp[0][0]['id'], True)])
-    ctx.check(ok, rule, INSERT + ':displacement', s, 'a resident closer to home than the carried entry is displaced and the carried distance becomes the resident\'s')
+    # insertion, lookup, removal and marking agree on where an entry is to be found: decided by evaluating the four of them on small
+    # registries against the set of registered pointers (gcmodel), not by comparing their loops
+    report_registry(P, ctx, rule, ('set', 'mem', 'rem', 'mark'))
     # probe distance function is the same function of (nslots, i, h) for registry and Table
     why = probe.probe_function_eval(P, 'GC_Probe')
     ctx.check(why is None, rule, 'GC_Probe', site(P.fn('GC_Probe')),
               'the probe distance of a resident is (slot - home) modulo the slot count, non-negative also for entries that wrapped past the end of the table '
               '(evaluated with exact C conversions for table sizes 1..7)', [why] if why else None)
-    # back-shift loops agree between explicit removal and sweep
-    bs = {}
-    for f in ('GC_Rem_Ptr', 'GC_Sweep'):
-        bs[f] = backshift_form(P, f)
-    a, b = bs['GC_Rem_Ptr'], bs['GC_Sweep']
-    ok = a is not None and b is not None and a['next'] == b['next'] and a['table'] == b['table'] and a['acts'] == b['acts']
-    ctx.check(ok, rule, 'back-shift:GC_Rem_Ptr==GC_Sweep', site(P.fn('GC_Sweep')),
-              'after a removal both routines shift the following entries back one slot while they are displaced from home (probe distance > 0), '
-              'copying whole entries and clearing the vacated slot',
-              ['GC_Rem_Ptr: %s' % (a,), 'GC_Sweep:   %s' % (b,)])
+    # the sweep's own back-shift loop
+    a = backshift_form(P, 'GC_Sweep')
+    ok = a is not None
     if a:
         want_tab = {(0, 0): False, (0, 1): False, (0, 5): False, (3, 0): False, (3, 1): True, (3, 5): True}
         ok = a['next'] == '((1 + J) % arg0->nslots)' and a['table'] == want_tab
-        ctx.check(ok, rule, 'back-shift:condition', site(P.fn(a['fn'])), 'the shift continues exactly while the next slot is occupied and its entry is away from home; the next slot is (j+1) modulo the table size',
-                  ['continue table (stored hash, probe distance) -> shifts: %s' % a['table']])
-    ctx.floor(rule, 16)
+    ctx.check(ok, rule, 'back-shift:GC_Sweep', site(P.fn(a['fn'] if a else 'GC_Sweep')), 'after reclaiming an entry the sweep shifts the following entries back one slot exactly while the next slot is '
+              'occupied and its entry is away from home; the next slot is (j+1) modulo the table size', ['continue table (stored hash, probe distance) -> shifts: %s' % (a['table'] if a else None)])
+    ctx.floor(rule, 6)
 
 
 def backshift_form(P, fname, probe_fn='GC_Probe', depth=1):
@@ -160,42 +134,11 @@ def backshift_form(P, fname, probe_fn='GC_Probe', depth=1):
 def check_entry_moves_whole(P, ctx, rule='C17.entry-moves-whole'):
     """wherever a registry entry changes slot (displacement on insert, back-shift on removal, rehash) all of
     its fields (pointer, hash, root flag, mark) travel together"""
-    fields = {f[0] for f in P.records['GCEntry']['fields']}
-    # displacement in GC_Set_Ptr
-    F = probe.lookup_fragments(P, INSERT)
-    g = F.g
-    fn = F.fn
-    disp = [(n, c) for n, c in F.conds if ir.fmt(c) in ('(P <= J)', '(P < J)')]
-    ok = len(disp) == 1
-    detail = []
-    NXd = util.Norm(P, fn, expand_locals=True, inline=False)
-    if ok:
-        branch = g.reach_from([v for v, l in disp[0][0]['succ'] if l is True][0], cut_nodes=[v for v, l in disp[0][0]['succ'] if l is False])
-        partial = {}
-        whole = 0
-        ltypes = util.local_decl_types(fn)
-        for i in branch:
-            n = g.nodes[i]
-            if n['expr'] is None:
-                continue
-            for ev in util.expr_events(n['expr'], n):
-                if ev['t'] != 'write':
-                    continue
-                raw = ir.top_nocast(ev['lhs'])
-                lhs = ir.top_nocast(NXd.canon(ev['lhs']))        # `*slot` with slot = &entries[i] is entries[i]
-                if lhs[0] in ('dot', 'arrow') and lhs[2] in fields:
-                    partial.setdefault(ir.fmt(lhs[1]), set()).add(lhs[2])
-                elif (raw[0] == 'local' and ltypes.get(raw[2]) == 'struct GCEntry') or (lhs[0] == 'idx' and util.mentions_field(lhs, 'entries')):
-                    whole += 1
-        for tgt, fl in partial.items():
-            if fl != fields:
-                ok = False
-                detail.append('only fields %s of %s are carried over; %s stay behind' % (sorted(fl), tgt, sorted(fields - fl)))
-        ok = ok and (whole >= 3 or (partial and all(fl == fields for fl in partial.values())))
-    ctx.check(ok, rule, 'GC_Set_Ptr:displacement', site(fn), 'displacing a resident exchanges the whole entry (pointer, hash, root flag, mark) with the carried one — '
-              'a root flag or mark left behind would attach to a different object', detail)
-    # back-shift copies sizeof(struct GCEntry)
-    for f in ('GC_Rem_Ptr', 'GC_Sweep'):
+    report_registry(P, ctx, rule, ('set', 'rem'), texts={
+        'set': 'displacing a resident on insertion carries its whole entry along: afterwards every pointer still has its own root flag and mark',
+        'rem': 'the back-shift after a removal moves whole entries: afterwards every pointer still has its own root flag and mark, and the vacated slot is empty'})
+    # the sweep's back-shift copies sizeof(struct GCEntry)
+    for f in ('GC_Sweep',):
         bf = backshift_form(P, f)
         fn = P.fn(bf['fn'] if bf else f)
         g = P.cfg(fn)
@@ -282,15 +225,8 @@ def check_counts(P, ctx):
         else:
             ctx.check(bad is None, rule, f, site(fn2), ('%s rehashes to the ideal size for the current count whenever that is larger than the slot count' % f) if grows else
                       ('%s rehashes to the ideal size for the current count, never to anything else' % f), [bad] if bad else None)
-    # GC_Rem_Ptr: the hit path decrements once
-    fn = P.fn('GC_Rem_Ptr')
-    g = P.cfg(fn)
-    decs = [n for n in g.live() if n['expr'] is not None and util.Norm(P, fn).canon(n['expr']) == ('un', 'post--', ('arrow', ('param', 0), 'nitems'))]
-    zero = [n for n in g.live() if n['expr'] is not None and any(ir.callee_name(c) == 'memset' and util.mentions_field(c[2][0], 'entries') for c in ir.calls(n['expr']))]
-    fin = [n for (n, c) in g.nodes_calling('dealloc')]
-    ok = len(decs) == 1 and len(fin) == 1 and zero and g.must_pass(fin[0]['id'], [decs[0]['id']]) and g.must_pass(decs[0]['id'], [zero[0]['id']]) and \
-        decs[0]['id'] not in g.reach_from(decs[0]['succ'][0][0])
-    ctx.check(ok, rule, 'GC_Rem_Ptr', site(fn), 'an explicit removal clears the slot, decrements the count once and finalises the object')
+    # GC_Rem_Ptr: a removal decrements the count once (evaluated: gcmodel)
+    report_registry(P, ctx, rule, ('rem',), texts={'rem': 'an explicit removal clears the slot, decrements the count once and finalises the object'})
     ctx.floor(rule, 4)
 
 
